@@ -575,3 +575,27 @@ def mon_c05_probe(case, verdict, chk):
     elif case.get("goroutine_delta", 0) > 0:
         chk.violation("C05:probe-goroutine-left:" + str(case.get("mode")), "%d goroutine(s) left after Prepare returned (%s)" %
                       (case["goroutine_delta"], case.get("mode")), {"kind": "impl-counterexample", "case": slim(case)})
+
+
+def mon_prompt(pid):
+    def mon(case, verdict, chk):
+        """when no declared output can be produced any more the run must end promptly, whatever unrelated steps do"""
+        res = case.get("result", {})
+        shape = case.get("shape", "?")
+        if not res.get("returned"):
+            chk.violation("%s:not-prompt:%s" % (pid, shape),
+                          "no declared output is producible any more (%s) but the run keeps waiting for an unrelated, never-ending step" % shape,
+                          {"kind": "impl-counterexample", "case": slim(case)})
+        elif res.get("output_id"):
+            chk.violation("%s:prompt-shape-returned-output:%s" % (pid, shape), "an output was returned although none is producible (%s)" % shape,
+                          {"kind": "impl-counterexample", "case": slim(case)})
+    return mon
+
+
+def mon_c15_engine(case, verdict, chk):
+    """the tagged members of every plugin input and of the returned output mean what their tags say"""
+    before = len(chk.violations)
+    for mon in (mon_c02_engine, mon_c03_engine):
+        mon(case, verdict, chk)
+    for v in chk.violations[before:]:
+        v["fingerprint"] = v["fingerprint"].replace("C02:", "C15:").replace("C03:", "C15:")
